@@ -44,6 +44,8 @@ def _same_shape(got, want):
         return True
     if A.is_form(want) and len(want) == 1 and not A.is_form(got) and got[0] == "struct":
         return True  # an object named as a whole against its fields written out: compared field by field
+    if A.is_form(got) and len(got) == 1 and "(" in str(list(got)[0]) and not A.is_form(want) and want[0] in ("some", "none"):
+        return True  # an opaque Option-valued term against a definite Some / None: a difference of value
     if A.is_form(want) or A.is_form(got):
         return A.is_form(want) == A.is_form(got) or (not A.is_form(got) and got[0] in ("obj", "objf", "if", "match", "early")) or (not A.is_form(want) and want[0] in ("obj", "if"))
     if want[0] != got[0]:
